@@ -24,6 +24,7 @@
                Decided m     line 525 evaluated: m = response marked Connection: close
                Writing m     first bytes of the response handed to the socket
                Written       a marked response completely written (handle returns errClose)
+               Broken        a write of the response failed (client gone): handle returns errClose
                SockClosed    deferred conn.Close() done
                Finished      deferred conns.Done() done
      late      ghost: the connection was accepted when closing was already signalled
@@ -38,7 +39,7 @@ Inductive phase :=
 | Accepted | Registered | Idle | HeadPartial
 | InReqMod | InRoundTrip | InResMod | PreDecide
 | Decided (m : bool) | Writing (m : bool) | Written
-| SockClosed | Finished.
+| SockClosed | Finished | Broken.
 
 Inductive cstate := NotCalled | Called | Signalled | Locked | Returned.
 
@@ -65,7 +66,11 @@ Inductive clabel :=
 | WriteHead (m : bool)(* first Write on the client socket for this response *)
 | WriteDone           (* last byte of the response written *)
 | SockClose           (* conn.Close() of handleLoop's defer *)
-| Done.               (* conns.Done() *)
+| Done                (* conns.Done() *)
+| RTEnd (ok : bool)   (* observation: the round trip is returning a response / an error (-> 502 + Warning) *)
+| RespStatus (f : bool)(* observation: the head about to be written is the synthesized 502 (f) or not *)
+| WriteFail           (* a socket write of the response returned an error *)
+| CliGone.            (* observation: the client closed its side *)
 
 Inductive label :=
 | Accept (c : nat)
@@ -93,6 +98,12 @@ Definition cstep (cl lk : bool) (p : phase) (k : clabel) : option phase :=
   | ReqModStart, HeadPartial => Some InReqMod
   | RTStart, InReqMod => Some InRoundTrip
   | ResModStart, InRoundTrip => Some InResMod
+  | ResModStart, InReqMod => Some InResMod      (* ctx.SkipRoundTrip(): the round tripper is not called *)
+  | RTEnd _, InRoundTrip => Some InRoundTrip
+  | RespStatus _, Decided m => Some (Decided m)
+  | WriteFail, Writing _ => Some Broken
+  | SockClose, Broken => Some SockClosed
+  | CliGone, p => Some p
   | ResModEnd, InResMod => Some PreDecide
   | Decide, PreDecide => Some (Decided cl)
   | WriteHead m, Decided m' => if Bool.eqb m m' then Some (Writing m) else None
@@ -171,7 +182,7 @@ Definition phase_eqb (a b : phase) : bool :=
   match a, b with
   | Accepted, Accepted | Registered, Registered | Idle, Idle | HeadPartial, HeadPartial
   | InReqMod, InReqMod | InRoundTrip, InRoundTrip | InResMod, InResMod | PreDecide, PreDecide
-  | Written, Written | SockClosed, SockClosed | Finished, Finished => true
+  | Written, Written | SockClosed, SockClosed | Finished, Finished | Broken, Broken => true
   | Decided m, Decided m' => Bool.eqb m m'
   | Writing m, Writing m' => Bool.eqb m m'
   | _, _ => false
@@ -303,8 +314,11 @@ Definition is_conn (c : nat) (k : clabel) (l : label) : bool :=
       match k, k' with
       | Register, Register | Enter, Enter | HeadPart, HeadPart | ReqModStart, ReqModStart
       | RTStart, RTStart | ResModStart, ResModStart | ResModEnd, ResModEnd | Decide, Decide
-      | WriteDone, WriteDone | SockClose, SockClose | Done, Done => true
+      | WriteDone, WriteDone | SockClose, SockClose | Done, Done
+      | WriteFail, WriteFail | CliGone, CliGone => true
       | WriteHead m, WriteHead m' => Bool.eqb m m'
+      | RTEnd m, RTEnd m' => Bool.eqb m m'
+      | RespStatus m, RespStatus m' => Bool.eqb m m'
       | _, _ => false
       end
   | _ => false
@@ -315,7 +329,10 @@ Definition is_conn (c : nat) (k : clabel) (l : label) : bool :=
 Definition s1_trig (x y : label) : bool :=
   match x with Conn c ReqModStart => is_conn c SockClose y | _ => false end.
 Definition s1_resp (x z : label) : bool :=
-  match x with Conn c ReqModStart => is_conn c WriteDone z | _ => false end.
+  match x with
+  | Conn c ReqModStart => is_conn c WriteDone z || is_conn c WriteFail z
+  | _ => false
+  end.
 Definition ok_inflight (tr : list label) : bool := all_between s1_trig s1_resp tr.
 
 (* S2: closing seen before the response modifier returned => response marked *)
@@ -385,30 +402,38 @@ Definition ok_close_returns (tr : list label) : bool := all_followed is_closecal
 Definition is_reqmod (l : label) : bool :=
   match l with Conn _ ReqModStart => true | _ => false end.
 Definition l3_q (x z : label) : bool :=
-  match x with Conn c ReqModStart => is_conn c WriteDone z | _ => false end.
+  match x with
+  | Conn c ReqModStart => is_conn c WriteDone z || is_conn c WriteFail z
+  | _ => false
+  end.
 Definition ok_all_answered (tr : list label) : bool := all_followed is_reqmod l3_q tr.
 
 (* What the client of connection c must have seen, given the proxy-side
    trace: one complete response per WriteHead (with its mark), and the end
    of the stream iff the proxy closed the socket. *)
-Fixpoint marks_of (c : nat) (tr : list label) : list bool :=
+(* (marked, is the synthesized 502) of every response head written on c *)
+Fixpoint heads_of (c : nat) (pend : bool) (tr : list label) : list (bool * bool) :=
   match tr with
   | [] => []
-  | Conn c' (WriteHead m) :: r => if Nat.eqb c c' then m :: marks_of c r else marks_of c r
-  | _ :: r => marks_of c r
+  | Conn c' (RespStatus f) :: r => heads_of c (if Nat.eqb c c' then f else pend) r
+  | Conn c' (WriteHead m) :: r =>
+      if Nat.eqb c c' then (m, pend) :: heads_of c false r else heads_of c pend r
+  | _ :: r => heads_of c pend r
   end.
 
 Definition closed_in (c : nat) (tr : list label) : bool :=
   existsb (is_conn c SockClose) tr.
 
-(* client view of one connection: (complete?, marked?) per response, then closed? *)
-Definition cview := (list (bool * bool) * bool)%type.
+(* client view of one connection: (complete?, marked?, 502 with Warning?) per response, then closed? *)
+Definition cresp := (bool * bool * bool)%type.
+Definition cview := (list cresp * bool)%type.
 
 Definition expected_view (tr : list label) (c : nat) : cview :=
-  (map (fun m => (true, m)) (marks_of c tr), closed_in c tr).
+  (map (fun mf => (true, fst mf, snd mf)) (heads_of c false tr), closed_in c tr).
 
-Definition resp_eqb (a b : bool * bool) : bool :=
-  Bool.eqb (fst a) (fst b) && Bool.eqb (snd a) (snd b).
+Definition resp_eqb (a b : cresp) : bool :=
+  Bool.eqb (fst (fst a)) (fst (fst b)) && Bool.eqb (snd (fst a)) (snd (fst b))
+  && Bool.eqb (snd a) (snd b).
 
 Definition cview_eqb (a b : cview) : bool :=
   list_eqb resp_eqb (fst a) (fst b) && Bool.eqb (snd a) (snd b).
@@ -416,6 +441,40 @@ Definition cview_eqb (a b : cview) : bool :=
 Definition ok_client_views (tr : list label) (views : list cview) : bool :=
   list_eqb cview_eqb views (map (expected_view tr) (seq 0 (length views)))
   && Nat.eqb (length views) (length (filter is_accept tr)).
+
+(* the response written is the synthesized 502 exactly when the round trip
+   of that exchange failed *)
+Fixpoint status_scan (c : nat) (failed : bool) (tr : list label) : bool :=
+  match tr with
+  | [] => true
+  | Conn c' k :: r =>
+      if Nat.eqb c c' then
+        match k with
+        | ReqModStart => status_scan c false r
+        | RTEnd ok => status_scan c (negb ok) r
+        | RespStatus f => Bool.eqb f failed && status_scan c failed r
+        | _ => status_scan c failed r
+        end
+      else status_scan c failed r
+  | _ :: r => status_scan c failed r
+  end.
+
+Definition ok_status (tr : list label) : bool :=
+  forallb (fun c => status_scan c false tr) (seq 0 (length (filter is_accept tr))).
+
+(* a socket write fails only after the client went away *)
+Fixpoint all_preceded {A} (p : A -> bool) (q : A -> A -> bool) (seen tr : list A) : bool :=
+  match tr with
+  | [] => true
+  | x :: r => (negb (p x) || existsb (q x) seen) && all_preceded p q (x :: seen) r
+  end.
+
+Definition is_writefail (l : label) : bool :=
+  match l with Conn _ WriteFail => true | _ => false end.
+Definition gone_q (x z : label) : bool :=
+  match x with Conn c WriteFail => is_conn c CliGone z | _ => false end.
+Definition ok_fail_only_if_gone (tr : list label) : bool :=
+  all_preceded is_writefail gone_q [] tr.
 
 (* Safety part that every model execution satisfies (theorem
    C07_model_executions_safe), the clause refuted by the model (D36), and
@@ -430,7 +489,8 @@ Definition c07_quiescent_ok (tr : list label) : bool :=
 
 Definition c07_ok (tr : list label) (views : list cview) : bool :=
   c07_safe_ok tr && ok_return_after_accepted_closed tr
-  && c07_quiescent_ok tr && ok_client_views tr views.
+  && c07_quiescent_ok tr && ok_client_views tr views
+  && ok_status tr && ok_fail_only_if_gone tr.
 
 (* first failing clause, for the verdict line *)
 Definition c07_failing_clause (tr : list label) (views : list cview) : nat :=
@@ -440,6 +500,8 @@ Definition c07_failing_clause (tr : list label) (views : list cview) : nat :=
   else if negb (ok_no_reqmod_after_return tr) then 4
   else if negb (ok_late_not_served tr) then 5
   else if negb (ok_return_after_served_closed tr) then 11
+  else if negb (ok_fail_only_if_gone tr) then 13
+  else if negb (ok_status tr) then 12
   else if negb (ok_client_views tr views) then 10
   else if negb (ok_all_answered tr) then 9
   else if negb (ok_all_closed tr) then 7
@@ -454,7 +516,8 @@ Definition c07_failing_clause (tr : list label) (views : list cview) : nat :=
 (* labels that need no further input from clients or from the caller *)
 Definition progress_label (l : label) : bool :=
   match l with
-  | Accept _ | CloseCall | ClosingSeen | Conn _ HeadPart | Conn _ ReqModStart => false
+  | Accept _ | CloseCall | ClosingSeen | Conn _ HeadPart | Conn _ ReqModStart
+  | Conn _ (RTEnd _) | Conn _ (RespStatus _) | Conn _ CliGone => false
   | _ => true
   end.
 
@@ -462,7 +525,7 @@ Definition phase_rank (p : phase) : nat :=
   match p with
   | Accepted => 13 | Registered => 12 | InReqMod => 11 | InRoundTrip => 10
   | InResMod => 9 | PreDecide => 8 | Decided _ => 7 | Writing _ => 6 | Written => 5
-  | Idle => 4 | HeadPartial => 3 | SockClosed => 2 | Finished => 0
+  | Idle => 4 | HeadPartial => 3 | SockClosed => 2 | Finished => 0 | Broken => 5
   end.
 
 Definition cs_rank (c : cstate) : nat :=
